@@ -230,6 +230,12 @@ PATHS = ["a", "c/d", "foo bar", "two  spaces", " lead", "trail ", "  ", "t) = u"
          "​", " ", "é"]
 
 
+# every character that needs escaping next to / before / after every kind of multi-byte character
+for _sp in ("\\", "\n", "\r"):
+    for _mb in ("ß", "é", "€", "😀", "İ", "\u00a0", "\u2028"):
+        PATHS += [_sp + _mb, _mb + _sp, _mb + _sp + _mb, "a" + _sp + "b" + _mb, _sp + "dir" + _mb + _sp + _mb]
+
+
 def hash_field_cases():
     out = [H1, H2, H1[:63], H1 + "0", H1[:62], H1 + "00", "", "0", H1.upper(), H1[:63] + "A", H1[:63] + "g", H1[:63] + " ",
            " " + H1[:63], H1[:32] + " " + H1[33:], H1[:63] + "G", "0x" + H1[:62], H1[:63] + "\t", H1[:63] + "/", H1[:63] + ":",
